@@ -436,6 +436,22 @@ pub fn run(a: &Args) {
         }
       }
     }
+    // a file with far more records than any internal cap or buffer (C04: "every n")
+    let bign = a.num("bign", 1500) as usize;
+    if bign > 0 {
+        let f = make_file(&concs[0], &mut r, 11, bign, false);
+        for h in ["c0", "i1", &format!("n{}", bign - 1)[..], &format!("n{}", bign)[..], "n1023", "n1024", "n1025",
+                  &format!("i{}", bign + 1)[..], &format!("s1030 i{}", bign + 1)[..], &format!("i1030 c0 n{}", bign - 1)[..]] {
+            let calls = parse_hist(h);
+            for &with_idx in &[true, false] {
+                for &complete in &[false, true] {
+                    k += 1;
+                    distinct.insert((11, bign, false, with_idx, complete, h.to_string()));
+                    run_history(&mut traces[0], &concs[0], &f, with_idx, complete, false, &calls, h, &prop);
+                }
+            }
+        }
+    }
     let mut files = vec![];
     let mut lines = 0;
     for t in traces {
